@@ -185,6 +185,80 @@ def run(chk):
     chk.count("out_of_range_sweep", n_sw)
     chk.oblige("monitor:out-of-range-plain-values-refused(every int/enum/bitmap parameter of every class: %d trials)" % n_sw,
                sweep_bad is None, repr(sweep_bad) if sweep_bad else "")
+    # ---- out-of-range values that arrive ALREADY WRAPPED in the parameter's own type (a list type's constructor takes
+    # any number of items of any size; whether the value fits the wire format is only known when it is encoded): a
+    # fixed-length list of the wrong length, a counted list with more entries than its count prefix can announce, a
+    # byte string longer than its length prefix allows, a list item that does not fit the item type.  "Refused at
+    # construction": the constructor raises; a command object that exists must be encodable.
+    typed_bad = None
+    n_ty = 0
+    for idx, cls in table:
+        base = None
+        for p in cls.schema:
+            c = W.classify(p.type)
+            if c[0] not in ("fixlist", "fixbytes", "lvlist", "lvbytes", "greedy"):
+                continue
+            if base is None:
+                for _ in range(20):
+                    try:
+                        base = W.gen_assignment(rng, cls)
+                        for q in cls.schema:
+                            if q.name not in base:
+                                base[q.name] = W.gen_py(rng, q.type)
+                        cls(**base)
+                        break
+                    except Exception:  # noqa
+                        base = None
+                if base is None:
+                    break
+            good = base[p.name]
+            bads = []
+            try:
+                if c[0] == "fixbytes":
+                    bads.append(("%d bytes instead of %d" % (c[1] - 1, c[1]), p.type(list(good)[:-1])))
+                    bads.append(("%d bytes instead of %d" % (c[1] + 1, c[1]), p.type(list(good) + [0])))
+                elif c[0] == "fixlist":
+                    bads.append(("%d items instead of %d" % (c[1] - 1, c[1]), p.type(list(good)[:-1])))
+                elif c[0] == "lvbytes" and c[2] <= 65536:
+                    bads.append(("%d bytes behind a %d-byte length prefix" % (c[2] + (0 if c[2] == 256 ** c[1] else 1), c[1]),
+                                 p.type(b"\x01" * (c[2] + (0 if c[2] == 256 ** c[1] else 1)))))
+                if c[0] in ("lvlist", "fixlist", "greedy"):
+                    it = c[2] if c[0] != "greedy" else c[1]
+                    if it[0] == "int" and not it[2]:
+                        n = c[1] if c[0] == "fixlist" else 1
+                        bads.append(("an item of value %d in a list of %d-byte items" % (1 << (8 * it[1]), it[1]),
+                                     p.type([1 << (8 * it[1])] * n)))
+                    if c[0] == "lvlist" and c[1] == 1:
+                        item = list(good)[0] if len(good) else W.gen_py(rng, W.item_type_of(p.type), True)
+                        bads.append(("256 entries behind a 1-byte count", p.type([item] * 256)))
+            except Exception:  # noqa   the type itself refuses to hold such a value: nothing to hand to the constructor
+                chk.count("typed_invalid_refused_by_the_type")
+            for what, bad in bads:
+                try:
+                    bad.serialize()
+                    chk.count("typed_invalid_but_encodable")      # not out of range after all: not a trial
+                    continue
+                except Exception:  # noqa
+                    pass
+                kw = dict(base)
+                kw[p.name] = bad
+                n_ty += 1
+                chk.evaluations += 1
+                chk.count("typed_invalid_" + c[0])
+                try:
+                    cls(**kw)
+                except (ValueError, KeyError, TypeError, OverflowError):
+                    continue
+                if typed_bad is None:
+                    typed_bad = (cls.__qualname__, p.name, what)
+                    chk.violation("%s accepts, for parameter %s, a %s value that cannot be encoded (%s): out-of-range values are "
+                                  "to be refused at construction" % (cls.__qualname__, p.name, p.type.__name__, what),
+                                  {"class": cls.__qualname__, "param": p.name, "type": p.type.__name__, "what": what,
+                                   "assignment_of_the_other_parameters": W.kw_text(cls, base)},
+                                  key="accepts-typed:%s:%s" % (cls.__qualname__, p.name))
+    chk.count("typed_out_of_range_sweep", n_ty)
+    chk.oblige("monitor:out-of-range-values-wrapped-in-the-parameter-type-refused(every list / byte-string parameter of every "
+               "class: %d trials)" % n_ty, typed_bad is None, repr(typed_bad) if typed_bad else "")
     # all regenerated Rsp/Ind schemas satisfy the decidable side condition of the round-trip theorem
     oks = model.batch(["schemaok %d" % idx for idx, cls in table])
     notok = [cls.__qualname__ for (idx, cls), o in zip(table, oks) if o != "1" and ((int(cls.header) >> 8) & 0xFF) in (1, 2)]
